@@ -216,3 +216,1040 @@ theorem getID_not_err {E : Env} {g : Nat} {x : Option Extra} : getID E g x ≠ .
     · exact idInner_not_err.1
 
 end Gen.Defaults
+
+namespace Gen.Defaults
+
+theorem ident_case {g gv : Nat} {s : Bytes} {x : Option Extra}
+    (hs : g = gv ∨ identFree (.ident s x) = true) : g = gv := by
+  rcases hs with h | h
+  · exact h
+  · simp [identFree] at h
+
+section scalars
+variable {E : Env} {ρG ρI : ConstEnv} (ha : EnvAgree E ρG ρI) {root g gv : Nat} {t : ATy} {v : CV} {e : GoExpr} {val : GoVal}
+include ha
+
+theorem onBool_sound (h : onBool E g v = .ok e) (hs : g = gv ∨ identFree v = true)
+    (hI : idlBool E ρI gv v = some val) : evalGo E ρG e = some val := by
+  unfold idlBool at hI
+  cases v with
+  | int n =>
+    simp only [onBool, Res.ok.injEq] at h
+    subst h
+    simp only [evalGo]
+    by_cases h0 : n = 0
+    · subst h0; simp at hI; simp [← hI]
+    · by_cases h1 : n = 1
+      · subst h1; simp at hI; simp [← hI]
+      · simp [h0, h1] at hI
+  | dbl b tx => simp at hI
+  | lit s => simp at hI
+  | list xs => simp at hI
+  | map kvs => simp at hI
+  | ident s x =>
+    have hg := ident_case hs
+    subst hg
+    simp only [onBool] at h
+    simp only at hI
+    by_cases ht : s = bTrue
+    · simp only [ht, if_true, Res.ok.injEq] at h hI
+      subst h; simpa [evalGo] using hI
+    · simp only [ht, if_false] at h hI
+      by_cases hf : s = bFalse
+      · simp only [hf, if_true, Res.ok.injEq] at h hI
+        subst h; simpa [evalGo] using hI
+      · simp only [hf, if_false] at h hI
+        cases hid : getID E g x with
+        | err => simp [hid] at h
+        | panic => simp [hid] at h
+        | ok o =>
+          cases o with
+          | none => simp [hid] at h
+          | some r =>
+            simp only [hid, Res.ok.injEq] at h
+            subst h
+            cases hr : refValue E ρI g x with
+            | none => simp [hr] at hI
+            | some w =>
+              have := getID_sound ha hid hr
+              rw [this]
+              cases w <;> simp [hr] at hI
+              subst hI; rfl
+
+theorem onInt_sound {bits : Nat} (hb : t.cat.intBits.getD 64 = bits) (h : onInt E root g t v = .ok e) (hs : g = gv ∨ identFree v = true)
+    (hI : idlInt E ρI gv bits v = some val) : evalGo E ρG e = some val := by
+  unfold idlInt at hI
+  cases v with
+  | int n =>
+    simp only [onInt, Res.ok.injEq] at h
+    subst h
+    simp only [evalGo]
+    simp only at hI
+    split at hI <;> simp_all
+  | dbl b tx => simp at hI
+  | lit s => simp at hI
+  | list xs => simp at hI
+  | map kvs => simp at hI
+  | ident s x =>
+    have hg := ident_case hs
+    subst hg
+    simp only [onInt] at h
+    simp only at hI
+    by_cases ht : s = bTrue
+    · simp [ht] at hI
+    · by_cases hf : s = bFalse
+      · simp [hf] at hI
+      · simp only [ht, hf, if_false, Bool.or_self, decide_false, Bool.false_eq_true] at h hI
+        cases hid : getID E g x with
+        | err => simp [hid] at h
+        | panic => simp [hid] at h
+        | ok o =>
+          cases o with
+          | none => simp [hid] at h
+          | some r =>
+            simp only [hid] at h
+            cases hr : refValue E ρI g x with
+            | none => simp [hr] at hI
+            | some w =>
+              have hgo := getID_sound ha hid hr
+              cases w <;> simp [hr] at hI
+              obtain ⟨hin, hv⟩ := hI
+              subst hv
+              cases htn : typeName E root g t with
+              | panic => simp [htn] at h
+              | err =>
+                simp only [htn, Res.ok.injEq] at h
+                subst h
+                simp [evalGo, hgo, hin, hb]
+              | ok ty =>
+                simp only [htn, Res.ok.injEq] at h
+                subst h
+                simp [evalGo, hgo, hin, hb]
+
+theorem onDouble_sound (h : onDouble E g v = .ok e) (hs : g = gv ∨ identFree v = true)
+    (hI : idlDouble E ρI gv v = some val) : evalGo E ρG e = some val := by
+  unfold idlDouble at hI
+  cases v with
+  | int n =>
+    simp only [onDouble, Res.ok.injEq] at h
+    subst h
+    simpa [evalGo] using hI
+  | dbl b tx =>
+    simp only [onDouble, Res.ok.injEq] at h
+    subst h
+    simpa [evalGo] using hI
+  | lit s => simp at hI
+  | list xs => simp at hI
+  | map kvs => simp at hI
+  | ident s x =>
+    have hg := ident_case hs
+    subst hg
+    simp only [onDouble] at h
+    simp only at hI
+    by_cases ht : s = bTrue
+    · simp [ht] at hI
+    · by_cases hf : s = bFalse
+      · simp [hf] at hI
+      · simp only [ht, hf, if_false, Bool.or_self, decide_false, Bool.false_eq_true] at h hI
+        cases hid : getID E g x with
+        | err => simp [hid] at h
+        | panic => simp [hid] at h
+        | ok o =>
+          cases o with
+          | none => simp [hid] at h
+          | some r =>
+            simp only [hid, Res.ok.injEq] at h
+            subst h
+            cases hr : refValue E ρI g x with
+            | none => simp [hr] at hI
+            | some w =>
+              have := getID_sound ha hid hr
+              rw [this]
+              cases w <;> simp [hr] at hI
+              subst hI; rfl
+
+theorem onEnum_sound (h : onEnum E g v = .ok e) (hs : g = gv ∨ identFree v = true)
+    (hI : idlEnum E ρI gv v = some val) : evalGo E ρG e = some val := by
+  unfold idlEnum at hI
+  cases v with
+  | int n =>
+    simp only [onEnum, Res.ok.injEq] at h
+    subst h
+    simpa [evalGo] using hI
+  | dbl b tx => simp at hI
+  | lit s => simp at hI
+  | list xs => simp at hI
+  | map kvs => simp at hI
+  | ident s x =>
+    have hg := ident_case hs
+    subst hg
+    simp only [onEnum] at h
+    simp only at hI
+    cases hid : getID E g x with
+    | err => simp [hid] at h
+    | panic => simp [hid] at h
+    | ok o =>
+      cases o with
+      | none => simp [hid] at h
+      | some r =>
+        simp only [hid, Res.ok.injEq] at h
+        subst h
+        cases hr : refValue E ρI g x with
+        | none => simp [hr] at hI
+        | some w =>
+          have := getID_sound ha hid hr
+          rw [this]
+          cases w <;> simp [hr] at hI
+          subst hI; rfl
+
+theorem onStrBin_sound (h : onStrBin E g t v = .ok e) (hs : g = gv ∨ identFree v = true)
+    (hg : goodStr v = true) (hI : idlStr E ρI gv v = some val) : evalGo E ρG e = some val := by
+  unfold idlStr at hI
+  unfold goodStr at hg
+  have key : ∀ e0, strBinCore E g v = Res.ok e0 → ∃ b, val = .bytes b ∧ evalGo E ρG e0 = some (.bytes b) := by
+    intro e0 h0
+    unfold strBinCore at h0
+    cases v with
+    | int n => simp at h0
+    | dbl b tx => simp at h0
+    | list xs => simp at h0
+    | map kvs => simp at h0
+    | lit s =>
+      simp only [Res.ok.injEq] at h0
+      subst h0
+      simp only at hI hg
+      simp only [litOK, beq_iff_eq] at hg
+      simp only [evalGo, hg]
+      cases hi : interp s with
+      | none => simp [hi] at hI
+      | some b => simp [hi] at hI; exact ⟨b, hI.symm, rfl⟩
+    | ident s x =>
+      have hgg := ident_case hs
+      subst hgg
+      simp only at h0 hI
+      by_cases hb : (s = bTrue || s = bFalse) = true
+      · simp [hb] at h0
+      · simp only [hb, Bool.false_eq_true, if_false] at h0 hI
+        cases hid : getID E g x with
+        | err => simp [hid] at h0
+        | panic => simp [hid] at h0
+        | ok o =>
+          cases o with
+          | none => simp [hid] at h0
+          | some r =>
+            simp only [hid, Res.ok.injEq] at h0
+            subst h0
+            cases hr : refValue E ρI g x with
+            | none => simp [hr] at hI
+            | some w =>
+              have := getID_sound ha hid hr
+              cases w <;> simp [hr] at hI
+              exact ⟨_, hI.symm, this⟩
+  unfold onStrBin at h
+  cases hc : strBinCore E g v with
+  | err => simp [hc] at h
+  | panic => simp [hc] at h
+  | ok e0 =>
+    obtain ⟨b, hb, he0⟩ := key e0 hc
+    subst hb
+    simp only [hc] at h
+    split at h
+    · simp only [Res.ok.injEq] at h
+      subst h
+      simp [evalGo, he0]
+    · simp only [Res.ok.injEq] at h
+      subst h
+      exact he0
+
+end scalars
+end Gen.Defaults
+
+namespace Gen.Defaults
+
+theorem find?_name_struct {l : List AStruct} {nm : Name} {st : AStruct} (h : l.find? (·.name == nm) = some st) :
+    st.name = nm ∧ l.find? (·.name == st.name) = some st := by
+  have hp := List.find?_some h
+  simp only [beq_iff_eq] at hp
+  exact ⟨hp, by rw [hp]; exact h⟩
+
+theorem structOf_find {E : Env} {g : Nat} {t : ATy} {file : Nat} {st : AStruct}
+    (h : structOf E g t = .ok (file, st)) : E.findStruct file st.name = some st := by
+  unfold structOf at h
+  split at h
+  · rename_i g' c r nm heq
+    cases hf : E.findStruct g' nm with
+    | none => simp [hf] at h
+    | some st' =>
+      simp only [hf, Res.ok.injEq, Prod.mk.injEq] at h
+      obtain ⟨h1, h2⟩ := h
+      subst h1 h2
+      unfold Env.findStruct at hf ⊢
+      cases hfe : E.file? g' with
+      | none => simp [hfe] at hf
+      | some fe =>
+        simp only [hfe] at hf ⊢
+        exact (find?_name_struct hf).2
+  · simp at h
+  · simp at h
+
+theorem derefFuel_succ (E : Env) : ∃ n, E.derefFuel = n + 1 := ⟨_, rfl⟩
+
+theorem elemTy_inline {E : Env} {g : Nat} {t e : ATy} (hc : t.cat = .list ∨ t.cat = .set) (he : t.elem? = some e) :
+    elemTy E g t = some (g, e) := by
+  obtain ⟨n, hn⟩ := derefFuel_succ E
+  unfold elemTy
+  rw [hn]
+  cases t with
+  | base c => simp [ATy.elem?] at he
+  | named c r nm => simp [ATy.elem?] at he
+  | list a => simp only [ATy.elem?, Option.some.injEq] at he; subst he; simp [deref]
+  | set a => simp only [ATy.elem?, Option.some.injEq] at he; subst he; simp [deref]
+  | map k w => rcases hc with hc | hc <;> simp [ATy.cat] at hc
+
+theorem mapTy_inline {E : Env} {g : Nat} {t k w : ATy} (hk : t.key? = some k) (he : t.elem? = some w) :
+    mapTy E g t = some (g, k, w) := by
+  obtain ⟨n, hn⟩ := derefFuel_succ E
+  unfold mapTy
+  rw [hn]
+  cases t with
+  | base c => simp [ATy.elem?] at he
+  | named c r nm => simp [ATy.elem?] at he
+  | list a => simp [ATy.key?] at hk
+  | set a => simp [ATy.key?] at hk
+  | map k' w' =>
+    simp only [ATy.elem?, ATy.key?, Option.some.injEq] at he hk
+    subst he hk
+    simp [deref]
+
+theorem bin2str_cat_ne (k : ATy) : (bin2str k).cat = if k.cat = .bin then .str else k.cat := by
+  cases k with
+  | base c => cases c <;> simp [bin2str, ATy.cat]
+  | named c r n => cases c <;> simp [bin2str, ATy.cat]
+  | list e => simp [bin2str, ATy.cat]
+  | set e => simp [bin2str, ATy.cat]
+  | map a b => simp [bin2str, ATy.cat]
+
+theorem bin2str_eq_of_ne (k : ATy) (h : k.cat ≠ .bin) : bin2str k = k := by
+  cases k with
+  | base c => cases c <;> simp_all [bin2str, ATy.cat]
+  | named c r n => cases c <;> simp_all [bin2str, ATy.cat]
+  | list e => simp [bin2str]
+  | set e => simp [bin2str]
+  | map a b => simp [bin2str]
+
+/-- the IDL side reads a key of a binary type like a key of a string type -/
+theorem evalIDL_bin2str (E : Env) (ρ : ConstEnv) (gt gv : Nat) (k : ATy) (v : CV) :
+    evalIDL E ρ gt gv (bin2str k) v = evalIDL E ρ gt gv k v := by
+  by_cases h : k.cat = .bin
+  · have h2 : (bin2str k).cat = .str := by rw [bin2str_cat_ne]; simp [h]
+    rw [evalIDL.eq_def, evalIDL.eq_def]
+    simp only [h, h2]
+  · rw [bin2str_eq_of_ne k h]
+
+end Gen.Defaults
+
+namespace Gen.Defaults
+
+theorem redirect_sound {E : Env} {ρG : ConstEnv} {f : AField} {typ : GoTy} {v : CV} {e : GoExpr} {x : GoVal}
+    {root file : Nat} (hr : resolveConst E root file f.ty v = .ok e) (hok : addrOK f v = true)
+    (he : evalGo E ρG e = some x) : evalGo E ρG (redirect f typ e) = some x := by
+  unfold redirect
+  cases hn : needRedirect f with
+  | false => simpa using he
+  | true =>
+    simp only [if_true]
+    cases hb : f.ty.cat.isBase with
+    | true => simp [GoExpr.startsAmp, evalGo, he]
+    | false =>
+      simp only [Bool.false_eq_true, if_false]
+      simp only [addrOK, hn, hb, Bool.not_false, Bool.and_self, if_true, Bool.and_eq_true, beq_iff_eq] at hok
+      obtain ⟨hc, hm⟩ := hok
+      cases v with
+      | map kvs =>
+        rw [resolveConst.eq_def] at hr
+        simp only [hc] at hr
+        cases htn : typeName E root file f.ty with
+        | err => simp [htn] at hr
+        | panic => simp [htn] at hr
+        | ok ty =>
+          simp only [htn] at hr
+          cases hso : structOf E file f.ty with
+          | err => simp [hso] at hr
+          | panic => simp [hso] at hr
+          | ok p =>
+            obtain ⟨fl, st⟩ := p
+            simp only [hso] at hr
+            cases hm2 : resolveMembers E root fl st kvs with
+            | err => simp [hm2] at hr
+            | panic => simp [hm2] at hr
+            | ok ents =>
+              simp only [hm2, Res.ok.injEq] at hr
+              subst hr
+              simpa [GoExpr.startsAmp] using he
+      | int n => simp [isMapLit] at hm
+      | dbl b tx => simp [isMapLit] at hm
+      | lit s => simp [isMapLit] at hm
+      | ident s x => simp [isMapLit] at hm
+      | list xs => simp [isMapLit] at hm
+
+section main
+set_option linter.unusedSectionVars false
+variable {E : Env} {ρG ρI : ConstEnv} (ha : EnvAgree E ρG ρI) (root : Nat)
+include ha
+
+/-- all types whose initialisers are not recursive -/
+theorem rc_scalar {v : CV} {g gv : Nat} {t : ATy} {e : GoExpr} {val : GoVal}
+    (hsc : t.cat ≠ .list ∧ t.cat ≠ .set ∧ t.cat ≠ .map ∧ t.cat ≠ .strct)
+    (h : resolveConst E root g t v = .ok e) (hs : g = gv ∨ identFree v = true) (hg : good E g t v = true)
+    (hI : evalIDL E ρI g gv t v = some val) : evalGo E ρG e = some val := by
+  rw [resolveConst.eq_def] at h
+  rw [evalIDL.eq_def] at hI
+  rw [good.eq_def] at hg
+  cases hc : t.cat with
+  | bool => simp only [hc] at h hI; exact onBool_sound ha h hs hI
+  | i8 => simp only [hc] at h hI; exact onInt_sound ha (by simp [hc, Cat.intBits]) h hs hI
+  | i16 => simp only [hc] at h hI; exact onInt_sound ha (by simp [hc, Cat.intBits]) h hs hI
+  | i32 => simp only [hc] at h hI; exact onInt_sound ha (by simp [hc, Cat.intBits]) h hs hI
+  | i64 => simp only [hc] at h hI; exact onInt_sound ha (by simp [hc, Cat.intBits]) h hs hI
+  | dbl => simp only [hc] at h hI; exact onDouble_sound ha h hs hI
+  | str => simp only [hc] at h hI hg; exact onStrBin_sound ha h hs hg hI
+  | bin => simp only [hc] at h hI hg; exact onStrBin_sound ha h hs hg hI
+  | enum => simp only [hc] at h hI; exact onEnum_sound ha h hs hI
+  | list => exact absurd hc hsc.1
+  | set => exact absurd hc hsc.2.1
+  | map => exact absurd hc hsc.2.2.1
+  | strct => exact absurd hc hsc.2.2.2
+
+/-- an identifier as initialiser of a container or struct-like -/
+theorem rc_ident_composite {s : Bytes} {x : Option Extra} {g gv : Nat} {t : ATy} {e : GoExpr} {val : GoVal}
+    (hsc : t.cat = .list ∨ t.cat = .set ∨ t.cat = .map ∨ t.cat = .strct)
+    (h : resolveConst E root g t (.ident s x) = .ok e) (hs : g = gv ∨ identFree (.ident s x) = true)
+    (hI : evalIDL E ρI g gv t (.ident s x) = some val) : evalGo E ρG e = some val := by
+  have hgg := ident_case hs
+  subst hgg
+  rw [resolveConst.eq_def] at h
+  rw [evalIDL.eq_def] at hI
+  -- what the four cases share
+  have common : ∀ (fallback : Res GoExpr) (ty : GoTy),
+      (match getID E g x with
+        | .ok (some r) => Res.ok (GoExpr.ident r)
+        | .panic => Res.panic
+        | _ => fallback) = Res.ok e →
+      ∀ w, refValue E ρI g x = some w → evalGo E ρG e = some w := by
+    intro fb ty h w hw
+    cases hid : getID E g x with
+    | panic => simp [hid] at h
+    | err => exact absurd hid getID_not_err
+    | ok o =>
+      cases o with
+      | none => have := getID_none ha hid; rw [this] at hw; cases hw
+      | some r =>
+        simp only [hid, Res.ok.injEq] at h
+        subst h
+        exact getID_sound ha hid hw
+  cases htn : typeName E root g t with
+  | err => rcases hsc with hc | hc | hc | hc <;> simp [hc, htn] at h
+  | panic => rcases hsc with hc | hc | hc | hc <;> simp [hc, htn] at h
+  | ok ty =>
+    cases hr : refValue E ρI g x with
+    | none => rcases hsc with hc | hc | hc | hc <;> simp [hc, hr] at hI
+    | some w =>
+      rcases hsc with hc | hc | hc | hc <;> simp only [hc, htn] at h hI
+      · have := common _ ty h w hr
+        cases w <;> simp [hr] at hI
+        subst hI; exact this
+      · have := common _ ty h w hr
+        cases w <;> simp [hr] at hI
+        subst hI; exact this
+      · have := common _ ty h w hr
+        cases w <;> simp [hr] at hI
+        subst hI; exact this
+      · have := common _ ty h w hr
+        cases w <;> simp [hr] at hI
+        subst hI; exact this
+
+def CV.isLeaf : CV → Bool
+  | .list _ | .map _ => false
+  | _ => true
+
+theorem rc_leaf {v : CV} {g gv : Nat} {t : ATy} {e : GoExpr} {val : GoVal} (hl : v.isLeaf = true)
+    (h : resolveConst E root g t v = .ok e) (hs : g = gv ∨ identFree v = true) (hg : good E g t v = true)
+    (hI : evalIDL E ρI g gv t v = some val) : evalGo E ρG e = some val := by
+  by_cases hsc : t.cat ≠ .list ∧ t.cat ≠ .set ∧ t.cat ≠ .map ∧ t.cat ≠ .strct
+  · exact rc_scalar ha root hsc h hs hg hI
+  · have hcomp : t.cat = .list ∨ t.cat = .set ∨ t.cat = .map ∨ t.cat = .strct := by
+      cases hc : t.cat <;> simp_all
+    cases v with
+    | ident s x => exact rc_ident_composite ha root hcomp h hs hI
+    | list xs => simp [CV.isLeaf] at hl
+    | map kvs => simp [CV.isLeaf] at hl
+    | int n => rw [evalIDL.eq_def] at hI; rcases hcomp with hc | hc | hc | hc <;> simp [hc] at hI
+    | dbl b tx => rw [evalIDL.eq_def] at hI; rcases hcomp with hc | hc | hc | hc <;> simp [hc] at hI
+    | lit s => rw [evalIDL.eq_def] at hI; rcases hcomp with hc | hc | hc | hc <;> simp [hc] at hI
+
+omit ha in
+theorem list_case {xs : List CV} {g gv : Nat} {t : ATy} {e : GoExpr} {val : GoVal}
+    (ih : ∀ (g gv : Nat) (et : ATy) (es : List GoExpr) (vals : List GoVal),
+      resolveList E root g (some et) xs = .ok es → (g = gv ∨ identFreeL xs = true) → goodL E g et xs = true →
+      evalIDLList E ρI g gv et xs = some vals → evalGoList E ρG es = some vals)
+    (hc : t.cat = .list ∨ t.cat = .set)
+    (h : resolveConst E root g t (.list xs) = .ok e) (hs : g = gv ∨ identFree (.list xs) = true)
+    (hg : good E g t (.list xs) = true) (hI : evalIDL E ρI g gv t (.list xs) = some val) :
+    evalGo E ρG e = some val := by
+  rw [resolveConst.eq_def] at h
+  rw [evalIDL.eq_def] at hI
+  rw [good.eq_def] at hg
+  have hs' : g = gv ∨ identFreeL xs = true := by simpa [identFree] using hs
+  rcases hc with hc | hc
+  all_goals
+    simp only [hc] at h hI hg
+    cases htn : typeName E root g t with
+    | err => simp [htn] at h
+    | panic => simp [htn] at h
+    | ok ty =>
+      simp only [htn] at h
+      cases hrl : resolveList E root g t.elem? xs with
+      | err => simp [hrl] at h
+      | panic => simp [hrl] at h
+      | ok es =>
+        simp only [hrl, Res.ok.injEq] at h
+        subst h
+        cases hel : t.elem? with
+        | none =>
+          rw [hel] at hrl
+          cases xs with
+          | cons x r => simp [resolveList] at hrl
+          | nil =>
+            simp only [resolveList, Res.ok.injEq] at hrl
+            subst hrl
+            cases het : elemTy E g t with
+            | none => simp [het] at hI
+            | some p =>
+              obtain ⟨g', e'⟩ := p
+              simp only [het, evalIDLList, Option.map_some, Option.some.injEq] at hI
+              subst hI
+              simp [evalGo, evalGoList]
+        | some et =>
+          rw [elemTy_inline (by simp [hc]) hel] at hI
+          rw [hel] at hrl
+          simp only [hel] at hg
+          simp only at hI
+          cases hl : evalIDLList E ρI g gv et xs with
+          | none => simp [hl] at hI
+          | some vals =>
+            simp only [hl, Option.map_some, Option.some.injEq] at hI
+            subst hI
+            have := ih g gv et es vals hrl hs' hg hl
+            simp [evalGo, this]
+
+omit ha in
+/-- `{}` written for a list or set (and, on the Go side, any other map literal: fault tolerance) -/
+theorem list_wrongkind {kvs : List (CV × CV)} {g gv : Nat} {t : ATy} {e : GoExpr} {val : GoVal}
+    (hc : t.cat = .list ∨ t.cat = .set)
+    (h : resolveConst E root g t (.map kvs) = .ok e) (hI : evalIDL E ρI g gv t (.map kvs) = some val) :
+    evalGo E ρG e = some val := by
+  rw [resolveConst.eq_def] at h
+  rw [evalIDL.eq_def] at hI
+  rcases hc with hc | hc
+  all_goals
+    simp only [hc] at h hI
+    cases htn : typeName E root g t with
+    | err => simp [htn] at h
+    | panic => simp [htn] at h
+    | ok ty =>
+      simp only [htn, Res.ok.injEq] at h
+      subst h
+      split at hI
+      · simp only [Option.some.injEq] at hI; subst hI; simp [evalGo, evalGoList]
+      · cases hI
+
+omit ha in
+theorem map_wrongkind {xs : List CV} {g gv : Nat} {t : ATy} {e : GoExpr} {val : GoVal}
+    (hc : t.cat = .map)
+    (h : resolveConst E root g t (.list xs) = .ok e) (hI : evalIDL E ρI g gv t (.list xs) = some val) :
+    evalGo E ρG e = some val := by
+  rw [resolveConst.eq_def] at h
+  rw [evalIDL.eq_def] at hI
+  simp only [hc] at h hI
+  cases htn : typeName E root g t with
+  | err => simp [htn] at h
+  | panic => simp [htn] at h
+  | ok ty =>
+    simp only [htn, Res.ok.injEq] at h
+    subst h
+    split at hI
+    · simp only [Option.some.injEq] at hI; subst hI; simp [evalGo, evalGoPairs]
+    · cases hI
+
+omit ha in
+theorem map_case {kvs : List (CV × CV)} {g gv : Nat} {t : ATy} {e : GoExpr} {val : GoVal}
+    (ih : ∀ (g gv : Nat) (kt vt : ATy) (es : List (GoExpr × GoExpr)) (vals : List (GoVal × GoVal)),
+      resolvePairs E root g (some (bin2str kt)) (some vt) kvs = .ok es → (g = gv ∨ identFreeP kvs = true) →
+      goodP E g (bin2str kt) vt kvs = true →
+      evalIDLPairs E ρI g gv kt vt kvs = some vals → evalGoPairs E ρG es = some vals)
+    (hc : t.cat = .map)
+    (h : resolveConst E root g t (.map kvs) = .ok e) (hs : g = gv ∨ identFree (.map kvs) = true)
+    (hg : good E g t (.map kvs) = true) (hI : evalIDL E ρI g gv t (.map kvs) = some val) :
+    evalGo E ρG e = some val := by
+  rw [resolveConst.eq_def] at h
+  rw [evalIDL.eq_def] at hI
+  rw [good.eq_def] at hg
+  have hs' : g = gv ∨ identFreeP kvs = true := by simpa [identFree] using hs
+  simp only [hc] at h hI hg
+  cases htn : typeName E root g t with
+  | err => simp [htn] at h
+  | panic => simp [htn] at h
+  | ok ty =>
+    simp only [htn] at h
+    cases hrl : resolvePairs E root g (t.key?.map bin2str) t.elem? kvs with
+    | err => simp [hrl] at h
+    | panic => simp [hrl] at h
+    | ok es =>
+      simp only [hrl, Res.ok.injEq] at h
+      subst h
+      cases hk : t.key? with
+      | none =>
+        -- a typedef'd map: only the empty literal gets through
+        rw [hk] at hrl
+        cases kvs with
+        | cons x r => simp [resolvePairs] at hrl
+        | nil =>
+          simp only [resolvePairs, Res.ok.injEq] at hrl
+          subst hrl
+          cases het : mapTy E g t with
+          | none => simp [het] at hI
+          | some p =>
+            obtain ⟨g', k', w'⟩ := p
+            simp only [het, evalIDLPairs, Option.map_some, Option.some.injEq] at hI
+            subst hI
+            simp [evalGo, evalGoPairs]
+      | some kt =>
+        cases hel : t.elem? with
+        | none =>
+          cases t <;> simp [ATy.key?, ATy.elem?] at hk hel
+        | some vt =>
+          rw [mapTy_inline hk hel] at hI
+          rw [hk, hel] at hrl
+          simp only [hk, hel] at hg
+          simp only [Option.map_some] at hrl
+          simp only at hI
+          cases hl : evalIDLPairs E ρI g gv kt vt kvs with
+          | none => simp [hl] at hI
+          | some vals =>
+            simp only [hl, Option.map_some, Option.some.injEq] at hI
+            subst hI
+            have := ih g gv kt vt es vals hrl hs' hg hl
+            simp [evalGo, this]
+
+omit ha in
+theorem struct_case {kvs : List (CV × CV)} {g gv : Nat} {t : ATy} {e : GoExpr} {val : GoVal}
+    (ih : ∀ (file gv : Nat) (st : AStruct) (ents : List (Nat × GoExpr)) (vals : List (Nat × GoVal)),
+      resolveMembers E root file st kvs = .ok ents → (file = gv ∨ identFreeP kvs = true) → goodM E file st kvs = true →
+      evalIDLMembers E ρI file gv st kvs = some vals → evalGoEnts E ρG ents = some vals)
+    (hc : t.cat = .strct)
+    (h : resolveConst E root g t (.map kvs) = .ok e) (hs : g = gv ∨ identFree (.map kvs) = true)
+    (hg : good E g t (.map kvs) = true) (hI : evalIDL E ρI g gv t (.map kvs) = some val) :
+    evalGo E ρG e = some val := by
+  rw [resolveConst.eq_def] at h
+  rw [evalIDL.eq_def] at hI
+  rw [good.eq_def] at hg
+  have hs' : g = gv ∨ identFreeP kvs = true := by simpa [identFree] using hs
+  simp only [hc] at h hI hg
+  cases htn : typeName E root g t with
+  | err => simp [htn] at h
+  | panic => simp [htn] at h
+  | ok ty =>
+    simp only [htn] at h
+    cases hso : structOf E g t with
+    | err => simp [hso] at h
+    | panic => simp [hso] at h
+    | ok p =>
+      obtain ⟨file, st⟩ := p
+      simp only [hso] at h hI hg
+      cases hrm : resolveMembers E root file st kvs with
+      | err => simp [hrm] at h
+      | panic => simp [hrm] at h
+      | ok ents =>
+        simp only [hrm, Res.ok.injEq] at h
+        subst h
+        simp only [Bool.and_eq_true, Bool.or_eq_true, beq_iff_eq] at hg
+        obtain ⟨hscope, hgm⟩ := hg
+        have hs2 : file = gv ∨ identFreeP kvs = true := by
+          rcases hs' with hgv | hf
+          · rcases hscope with hfg | hf
+            · exact Or.inl (hfg.trans hgv)
+            · exact Or.inr hf
+          · exact Or.inr hf
+        cases hl : evalIDLMembers E ρI file gv st kvs with
+        | none => simp [hl] at hI
+        | some vals =>
+          simp only [hl, Option.map_some, Option.some.injEq] at hI
+          subst hI
+          have := ih file gv st ents vals hrm hs2 hgm hl
+          simp [evalGo, structOf_find hso, this]
+
+omit ha in
+theorem struct_list {xs : List CV} {g : Nat} {t : ATy} {e : GoExpr}
+    (hc : t.cat = .strct) (h : resolveConst E root g t (.list xs) = .ok e) : False := by
+  rw [resolveConst.eq_def] at h
+  simp only [hc] at h
+  cases htn : typeName E root g t <;> simp [htn] at h
+
+mutual
+theorem rc_sound : ∀ (v : CV) (g gv : Nat) (t : ATy) (e : GoExpr) (val : GoVal),
+    resolveConst E root g t v = .ok e → (g = gv ∨ identFree v = true) → good E g t v = true →
+    evalIDL E ρI g gv t v = some val → evalGo E ρG e = some val
+  | .int n, _, _, _, _, _, h, hs, hg, hI => rc_leaf ha root rfl h hs hg hI
+  | .dbl b tx, _, _, _, _, _, h, hs, hg, hI => rc_leaf ha root rfl h hs hg hI
+  | .lit s, _, _, _, _, _, h, hs, hg, hI => rc_leaf ha root rfl h hs hg hI
+  | .ident s x, _, _, _, _, _, h, hs, hg, hI => rc_leaf ha root rfl h hs hg hI
+  | .list xs, g, gv, t, e, val, h, hs, hg, hI => by
+      by_cases hsc : t.cat ≠ .list ∧ t.cat ≠ .set ∧ t.cat ≠ .map ∧ t.cat ≠ .strct
+      · exact rc_scalar ha root hsc h hs hg hI
+      · cases hc : t.cat with
+        | list => exact list_case root (rl_sound xs) (Or.inl hc) h hs hg hI
+        | set => exact list_case root (rl_sound xs) (Or.inr hc) h hs hg hI
+        | map => exact map_wrongkind root hc h hI
+        | strct => exact (struct_list root hc h).elim
+        | _ => simp_all
+  | .map kvs, g, gv, t, e, val, h, hs, hg, hI => by
+      by_cases hsc : t.cat ≠ .list ∧ t.cat ≠ .set ∧ t.cat ≠ .map ∧ t.cat ≠ .strct
+      · exact rc_scalar ha root hsc h hs hg hI
+      · cases hc : t.cat with
+        | list => exact list_wrongkind root (Or.inl hc) h hI
+        | set => exact list_wrongkind root (Or.inr hc) h hI
+        | map => exact map_case root (rp_sound kvs) hc h hs hg hI
+        | strct => exact struct_case root (rm_sound kvs) hc h hs hg hI
+        | _ => simp_all
+theorem rl_sound : ∀ (xs : List CV) (g gv : Nat) (et : ATy) (es : List GoExpr) (vals : List GoVal),
+    resolveList E root g (some et) xs = .ok es → (g = gv ∨ identFreeL xs = true) → goodL E g et xs = true →
+    evalIDLList E ρI g gv et xs = some vals → evalGoList E ρG es = some vals
+  | [], _, _, _, es, vals, h, _, _, hI => by
+      simp only [resolveList, Res.ok.injEq] at h
+      simp only [evalIDLList, Option.some.injEq] at hI
+      subst h hI
+      simp [evalGoList]
+  | x :: r, g, gv, et, es, vals, h, hs, hg, hI => by
+      simp only [resolveList] at h
+      simp only [evalIDLList] at hI
+      simp only [goodL, Bool.and_eq_true] at hg
+      have hs1 : g = gv ∨ identFree x = true := by
+        rcases hs with hs | hs
+        · exact Or.inl hs
+        · simp only [identFreeL, Bool.and_eq_true] at hs; exact Or.inr hs.1
+      have hs2 : g = gv ∨ identFreeL r = true := by
+        rcases hs with hs | hs
+        · exact Or.inl hs
+        · simp only [identFreeL, Bool.and_eq_true] at hs; exact Or.inr hs.2
+      cases h1 : resolveConst E root g et x with
+      | err => simp [h1] at h
+      | panic => simp [h1] at h
+      | ok a =>
+        simp only [h1] at h
+        cases h2 : resolveList E root g (some et) r with
+        | err => simp [h2] at h
+        | panic => simp [h2] at h
+        | ok rest =>
+          simp only [h2, Res.ok.injEq] at h
+          subst h
+          cases hv : evalIDL E ρI g gv et x with
+          | none => simp [hv] at hI
+          | some w =>
+            simp only [hv] at hI
+            cases hvs : evalIDLList E ρI g gv et r with
+            | none => simp [hvs] at hI
+            | some ws =>
+              simp only [hvs, Option.map_some, Option.some.injEq] at hI
+              subst hI
+              have e1 := rc_sound x g gv et a w h1 hs1 hg.1 hv
+              have e2 := rl_sound r g gv et rest ws h2 hs2 hg.2 hvs
+              simp [evalGoList, e1, e2]
+theorem rp_sound : ∀ (kvs : List (CV × CV)) (g gv : Nat) (kt vt : ATy) (es : List (GoExpr × GoExpr)) (vals : List (GoVal × GoVal)),
+    resolvePairs E root g (some (bin2str kt)) (some vt) kvs = .ok es → (g = gv ∨ identFreeP kvs = true) →
+    goodP E g (bin2str kt) vt kvs = true →
+    evalIDLPairs E ρI g gv kt vt kvs = some vals → evalGoPairs E ρG es = some vals
+  | [], _, _, _, _, es, vals, h, _, _, hI => by
+      simp only [resolvePairs, Res.ok.injEq] at h
+      simp only [evalIDLPairs, Option.some.injEq] at hI
+      subst h hI
+      simp [evalGoPairs]
+  | (k, v) :: r, g, gv, kt, vt, es, vals, h, hs, hg, hI => by
+      simp only [resolvePairs] at h
+      simp only [evalIDLPairs] at hI
+      simp only [goodP, Bool.and_eq_true] at hg
+      have hsk : g = gv ∨ identFree k = true := by
+        rcases hs with hs | hs
+        · exact Or.inl hs
+        · simp only [identFreeP, Bool.and_eq_true] at hs; exact Or.inr hs.1.1
+      have hsv : g = gv ∨ identFree v = true := by
+        rcases hs with hs | hs
+        · exact Or.inl hs
+        · simp only [identFreeP, Bool.and_eq_true] at hs; exact Or.inr hs.1.2
+      have hsr : g = gv ∨ identFreeP r = true := by
+        rcases hs with hs | hs
+        · exact Or.inl hs
+        · simp only [identFreeP, Bool.and_eq_true] at hs; exact Or.inr hs.2
+      cases h1 : resolveConst E root g (bin2str kt) k with
+      | err => simp [h1] at h
+      | panic => simp [h1] at h
+      | ok a =>
+        simp only [h1] at h
+        cases h2 : resolveConst E root g vt v with
+        | err => simp [h2] at h
+        | panic => simp [h2] at h
+        | ok b =>
+          simp only [h2] at h
+          cases h3 : resolvePairs E root g (some (bin2str kt)) (some vt) r with
+          | err => simp [h3] at h
+          | panic => simp [h3] at h
+          | ok rest =>
+            simp only [h3, Res.ok.injEq] at h
+            subst h
+            cases hk : evalIDL E ρI g gv kt k with
+            | none => simp [hk] at hI
+            | some wk =>
+              simp only [hk] at hI
+              cases hv : evalIDL E ρI g gv vt v with
+              | none => simp [hv] at hI
+              | some wv =>
+                simp only [hv] at hI
+                cases hvs : evalIDLPairs E ρI g gv kt vt r with
+                | none => simp [hvs] at hI
+                | some ws =>
+                  simp only [hvs, Option.map_some, Option.some.injEq] at hI
+                  subst hI
+                  have hk' : evalIDL E ρI g gv (bin2str kt) k = some wk := by rw [evalIDL_bin2str]; exact hk
+                  have e1 := rc_sound k g gv (bin2str kt) a wk h1 hsk hg.1.1 hk'
+                  have e2 := rc_sound v g gv vt b wv h2 hsv hg.1.2 hv
+                  have e3 := rp_sound r g gv kt vt rest ws h3 hsr hg.2 hvs
+                  simp [evalGoPairs, e1, e2, e3]
+theorem rm_sound : ∀ (kvs : List (CV × CV)) (file gv : Nat) (st : AStruct) (ents : List (Nat × GoExpr)) (vals : List (Nat × GoVal)),
+    resolveMembers E root file st kvs = .ok ents → (file = gv ∨ identFreeP kvs = true) → goodM E file st kvs = true →
+    evalIDLMembers E ρI file gv st kvs = some vals → evalGoEnts E ρG ents = some vals
+  | [], _, _, _, ents, vals, h, _, _, hI => by
+      simp only [resolveMembers, Res.ok.injEq] at h
+      simp only [evalIDLMembers, Option.some.injEq] at hI
+      subst h hI
+      simp [evalGoEnts]
+  | (k, v) :: r, file, gv, st, ents, vals, h, hs, hg, hI => by
+      simp only [resolveMembers] at h
+      simp only [evalIDLMembers] at hI
+      simp only [goodM, Bool.and_eq_true] at hg
+      have hsv : file = gv ∨ identFree v = true := by
+        rcases hs with hs | hs
+        · exact Or.inl hs
+        · simp only [identFreeP, Bool.and_eq_true] at hs; exact Or.inr hs.1.2
+      have hsr : file = gv ∨ identFreeP r = true := by
+        rcases hs with hs | hs
+        · exact Or.inl hs
+        · simp only [identFreeP, Bool.and_eq_true] at hs; exact Or.inr hs.2
+      cases k with
+      | int n => simp at h
+      | dbl b tx => simp at h
+      | ident s x => simp at h
+      | list xs => simp at h
+      | map m => simp at h
+      | lit n =>
+        simp only at h hI hg
+        cases hf : findField st.fields n with
+        | none => simp [hf] at h
+        | some p =>
+          obtain ⟨idx, f⟩ := p
+          simp only [hf] at h hI hg
+          simp only [Bool.and_eq_true] at hg
+          cases htn : typeName E root file f.ty with
+          | err => simp [htn] at h
+          | panic => simp [htn] at h
+          | ok typ =>
+            simp only [htn] at h
+            cases h1 : resolveConst E root file f.ty v with
+            | err => simp [h1] at h
+            | panic => simp [h1] at h
+            | ok e =>
+              simp only [h1] at h
+              cases h2 : resolveMembers E root file st r with
+              | err => simp [h2] at h
+              | panic => simp [h2] at h
+              | ok rest =>
+                simp only [h2, Res.ok.injEq] at h
+                subst h
+                cases hv : evalIDL E ρI file gv f.ty v with
+                | none => simp [hv] at hI
+                | some w =>
+                  simp only [hv] at hI
+                  cases hvs : evalIDLMembers E ρI file gv st r with
+                  | none => simp [hvs] at hI
+                  | some ws =>
+                    simp only [hvs, Option.map_some, Option.some.injEq] at hI
+                    subst hI
+                    have e1 := rc_sound v file gv f.ty e w h1 hsv hg.1.2 hv
+                    have e1' := redirect_sound (typ := typ) h1 hg.1.1 e1
+                    have e2 := rm_sound r file gv st rest ws h2 hsr hg.2 hvs
+                    simp [evalGoEnts, e1', e2]
+end
+
+end main
+end Gen.Defaults
+
+namespace Gen.Defaults
+
+/-- thriftgo accepted the program: every constant's initialiser resolves (root scope = its own file) -/
+def Accepted (E : Env) : Prop :=
+  ∀ f n c, E.findConst f n = some c → ∃ e, resolveConst E f f c.ty c.val = .ok e
+
+/-- every constant's initialiser satisfies the hypotheses of `const_value` -/
+def EnvGood (E : Env) : Prop :=
+  ∀ f n c, E.findConst f n = some c → good E f c.ty c.val = true
+
+theorem findConst_hasGlobal {E : Env} {f : Nat} {n : Name} {c : AConst} (h : E.findConst f n = some c) :
+    E.hasGlobal f n = true := by
+  unfold Env.findConst at h
+  unfold Env.hasGlobal
+  cases hf : E.file? f with
+  | none => simp [hf] at h
+  | some fe =>
+    simp only [hf] at h ⊢
+    have hp := List.find?_some h
+    have hm := List.mem_of_find?_eq_some h
+    unfold FileEnv.hasGlobal
+    have : fe.consts.any (fun x => x.name == n) = true := List.any_eq_true.mpr ⟨c, hm, hp⟩
+    simp [this]
+
+theorem envAgree (E : Env) (hacc : Accepted E) (hgood : EnvGood E) :
+    ∀ fuel, EnvAgree E (goEnvOf E fuel) (idlEnvOf E fuel)
+  | 0 => ⟨by intro f n v h; simp [idlEnvOf] at h, by intro f n v h; simp [idlEnvOf] at h⟩
+  | fuel + 1 => by
+    have ih := envAgree E hacc hgood fuel
+    constructor
+    · intro f n v h
+      simp only [idlEnvOf] at h
+      simp only [goEnvOf]
+      cases hc : E.findConst f n with
+      | none => simp [hc] at h
+      | some c =>
+        simp only [hc] at h ⊢
+        obtain ⟨e, he⟩ := hacc f n c hc
+        simp only [he]
+        exact rc_sound ih f c.val f f c.ty e v he (Or.inl rfl) (hgood f n c hc) h
+    · intro f n v h
+      simp only [idlEnvOf] at h
+      cases hc : E.findConst f n with
+      | none => simp [hc] at h
+      | some c => exact findConst_hasGlobal hc
+
+end Gen.Defaults
+
+namespace Gen.Defaults
+
+/-- the scan of the literal never meets a quote right after a backslash that starts an escape, nor a raw newline -/
+def litSafe : LexSt → Bytes → Bool
+  | _, [] => true
+  | st, c :: r =>
+      if st = .esc ∧ c = 34 then false
+      else if st = .norm ∧ c = 10 then false
+      else match lexStep st c with
+        | some (st', _) => litSafe st' r
+        | none => true
+
+theorem escQ_cons_quote (r : Bytes) : escQ (34 :: r) = 92 :: 34 :: escQ r := by simp [escQ]
+theorem escQ_cons_other {c : Nat} (h : c ≠ 34) (r : Bytes) : escQ (c :: r) = c :: escQ r := by simp [escQ, h]
+
+/-- `strings.ReplaceAll(s, "\"", "\\\"")` as a map over characters -/
+theorem escQ_eq_flatMap (s : Bytes) : escQ s = s.flatMap (fun c => if c = 34 then [92, 34] else [c]) := by
+  induction s with
+  | nil => rfl
+  | cons c r ih =>
+    by_cases h : c = 34
+    · subst h; simp [escQ, ih]
+    · simp [escQ, h, ih]
+
+theorem lexStep_num_quote {b r a : Nat} {u : Bool} : lexStep (.num b r a u) 34 = none := by
+  simp only [lexStep]
+  split <;> simp_all [hexDigit?, octDigit?]
+
+theorem lexStep_num_bslash {b r a : Nat} {u : Bool} : lexStep (.num b r a u) 92 = none := by
+  simp only [lexStep]
+  split <;> simp_all [hexDigit?, octDigit?]
+
+/-- simulation: reading the emitted text (every quote escaped, closing quote appended) from any scanner state
+    is reading the literal itself -/
+theorem unqFrom_emit : ∀ (s : Bytes) (st : LexSt), litSafe st s = true → unqFrom st (escQ s ++ [34]) = interpFrom st s
+  | [], st, _ => by
+    simp only [escQ, List.nil_append, unqFrom, interpFrom]
+    cases st with
+    | norm => simp
+    | esc => simp [lexStep]
+    | num b r a u => simp [lexStep_num_quote]
+  | c :: r, st, h => by
+    by_cases hq : c = 34
+    · subst hq
+      rw [escQ_cons_quote]
+      cases st with
+      | norm =>
+        have hr : litSafe .norm r = true := by
+          simpa [litSafe, lexStep] using h
+        have ih := unqFrom_emit r .norm hr
+        simp only [List.cons_append, unqFrom, interpFrom, lexStep]
+        simp [ih]
+        rfl
+      | esc => simp [litSafe] at h
+      | num b k a u =>
+        simp only [List.cons_append, unqFrom, interpFrom, lexStep_num_quote, lexStep_num_bslash]
+        simp
+    · rw [escQ_cons_other hq]
+      simp only [List.cons_append, unqFrom, interpFrom]
+      have hn : ¬(st = .norm ∧ c = 34) := fun hh => hq hh.2
+      have hnl : ¬(st = .norm ∧ c = 10) := by
+        intro hh
+        simp [litSafe, hh.1, hh.2] at h
+      simp only [hn, hnl, if_false]
+      cases hl : lexStep st c with
+      | none => rfl
+      | some p =>
+        obtain ⟨st', out⟩ := p
+        have hr : litSafe st' r = true := by
+          have : ¬(st = .esc ∧ c = 34) := fun hh => hq hh.2
+          simpa [litSafe, this, hnl, hl] using h
+        simp only [unqFrom_emit r st' hr]
+
+/-- string_literal_emission, semantic part -/
+theorem goUnquote_emit {s : Bytes} (h : litSafe .norm s = true) : goUnquote (emitStr s) = interp s := by
+  simp only [goUnquote, emitStr, interp]
+  exact unqFrom_emit s .norm h
+
+theorem litOK_of_safe {s : Bytes} (h : litSafe .norm s = true) : litOK s = true := by
+  simp [litOK, goUnquote_emit h]
+
+/-- a literal without backslash and newline is safe and means itself -/
+theorem plain_safe : ∀ (s : Bytes), (∀ c ∈ s, c ≠ 92 ∧ c ≠ 10) → litSafe .norm s = true ∧ interpFrom .norm s = some s
+  | [], _ => by simp [litSafe, interpFrom]
+  | c :: r, h => by
+    have hc := h c (List.mem_cons_self)
+    have hr := plain_safe r (fun x hx => h x (List.mem_cons_of_mem _ hx))
+    constructor
+    · simp [litSafe, lexStep, hc.1, hc.2, hr.1]
+    · simp [interpFrom, lexStep, hc.1, hr.2]
+
+theorem goUnquote_emit_plain {s : Bytes} (h : ∀ c ∈ s, c ≠ 92 ∧ c ≠ 10) : goUnquote (emitStr s) = some s := by
+  rw [goUnquote_emit (plain_safe s h).1]
+  exact (plain_safe s h).2
+
+end Gen.Defaults
+
+namespace Gen.Defaults
+
+theorem initDefault_zero (sd : StructDef) : initDefault sd (zeroStruct sd) = newX sd := by
+  simp only [zeroStruct, initDefault, newX]
+  congr 1
+  induction sd.fields with
+  | nil => rfl
+  | cons f r ih =>
+    simp only [List.map_cons, List.zip_cons_cons]
+    rw [ih]
+    cases hd : f.dflt <;> simp
+
+theorem getter_unset (f : FieldDef) (v : GoVal) (hs : supportIsSet f = true) (hu : Std.isSet f v = false) :
+    getter f v = defaultVar f := by
+  simp [getter, hs, hu]
+
+end Gen.Defaults
